@@ -77,16 +77,7 @@ func newSched(env *Env) *Sched {
 	}
 }
 
-func goid() int64 {
-	var buf [64]byte
-	n := runtime.Stack(buf[:], false)
-	// "goroutine 123 [running]:"
-	b := buf[:n]
-	b = bytes.TrimPrefix(b, []byte("goroutine "))
-	i := bytes.IndexByte(b, ' ')
-	id, _ := strconv.ParseInt(string(b[:i]), 10, 64)
-	return id
-}
+func goid() int64 { return Goid() }
 
 func (s *Sched) cur() *Task {
 	g := goid()
@@ -213,6 +204,32 @@ func (s *Sched) Yield() {
 	t.state = tsParked
 	s.mu.Unlock()
 	s.park(t)
+}
+
+// Settle lets everything else that is under way come to rest: the calling task yields
+// until no other task is left that could still run (bounded: a task that waits for
+// something only the caller will do never ends). Used where a scenario models a party
+// that goes away - what that party had in flight is dealt with before its successor
+// starts, since the statement at hand is about one caller at a time.
+func (s *Sched) Settle() {
+	t := s.cur()
+	if t == nil {
+		return
+	}
+	for i := 0; i < 500000; i++ {
+		s.mu.Lock()
+		others := false
+		for _, o := range s.tasks {
+			if o != t && o.state != tsDone {
+				others = true
+			}
+		}
+		s.mu.Unlock()
+		if !others {
+			return
+		}
+		s.Yield()
+	}
 }
 
 // --- simhook.Hooks ---
